@@ -109,6 +109,10 @@ def run(ctx):
     ctx.clause("C18.3 abort closes and removes")
     ctx.clause("C18.7 a footer that declares no schema element (a lone Thrift STOP parses as one) is refused by every open path")
     _empty_footer_rule(ctx)
+    ctx.clause("C18.8 what the writer releases after a failure it also forgets: abort and close do not release it a second time (rule shared with C07.5)")
+    from ..rules import stalefield
+    nst = stalefield.check(ctx, P.funcs_under("src/writer/"))
+    ctx.count("writer_member_release_sites", nst)
     wf = P.funcs_in(FW)
     rf = P.funcs_in(FR, MR)
     n = R.check_status_calls(ctx, wf + rf, R.STDIO_RESULT, "R1.stdio", pid_key="stdio", suppress=SUPPRESS)
